@@ -373,7 +373,22 @@ def cond_inputs(rng, case):
     xregs = {l[1] for l in D.leaves(case["cond"][1]) + D.leaves(case["cond"][2]) if l[0] == "x"}
     regs = {str(k): (xv() if k in xregs else iv()) for k in case["owned"] if k != 10 and not (k == 7 and has_global)}
     vars_ = {nm: (xv() if f == "x" else iv() & ((1 << (8 * D.FSIZE[f] - 1)) - 1)) for nm, f, _ in case["vars"]}
-    return {"regs": regs, "vars": vars_, "mode": "nonneg"}
+    mode = "nonneg"
+
+    def has(j, ops):
+        return isinstance(j, list) and (j[0] in ops or any(has(x, ops) for x in j[1:]))
+    if not has(case["cond"], ("/", "*", "//", "%")) and rng.random() < 0.5:
+        # signed operands: x variables, x registers, sr registers and q variables may be negative (no division or product in the
+        # condition, so the unsigned DIV of the known finding divmod-negative is not involved)
+        mode = "signed"
+        signed_regs = {l[1] for l in D.leaves(case["cond"][1]) + D.leaves(case["cond"][2]) if l[0] in ("x", "sr")}
+        for k in list(regs):
+            if int(k) in signed_regs and rng.random() < 0.6:
+                regs[k] = (-regs[k]) % (1 << 64)
+        for nm, f, _ in case["vars"]:
+            if f in ("x", "q") and rng.random() < 0.6:
+                vars_[nm] = (-vars_[nm]) % (1 << 64)
+    return {"regs": regs, "vars": vars_, "mode": mode}
 
 
 def build_cond(case):
@@ -421,7 +436,8 @@ def check_cond(ctx, case, inputs_list):
             out.append("cond:outside")
             continue
         truths = {CMPS[case["cond"][0]](x, y) for x in qa for y in qb}
-        if len(truths) != 1 or not all(0 <= v < (1 << 63) for v in vals):
+        lo = -(1 << 63) if inp.get("mode") == "signed" else 0
+        if len(truths) != 1 or not all(lo <= v < (1 << 63) for v in vals):
             out.append("cond:outside")
             continue
         want = 1 if truths.pop() else (2 if case["els"] else 0)
@@ -438,7 +454,7 @@ def check_cond(ctx, case, inputs_list):
                          "of the operand values)", {"cond": case, "inputs": inp},
                          f"marker={got} want={want} left={sorted(qa)[0]} right={sorted(qb)[0]}", None)
         big = any(v >= (1 << 31) for v in vals)
-        out.append(("cond:ok" if ok else "cond:fail") + (":ge2^31" if big else ":small"))
+        out.append(("cond:ok" if ok else "cond:fail") + (":negative" if any(v < 0 for v in vals) else ":ge2^31" if big else ":small"))
     return out
 
 
